@@ -131,7 +131,8 @@ def open_vmdk_sparse(files, opaque, p):
 
     parent = RawStream(opaque["parent"]) if p.get("has_parent") else None
     if p.get("via") == "disk":
-        return vmdk.SparseDisk(files["img"], parent=parent)
+        so = int(p.get("sector_offset", 0))
+        return vmdk.SparseDisk(files["img"], parent=parent, offset=so * 512, sector_offset=so)
     obj = vmdk.VMDK(files["img"])
     if parent is not None:
         obj.disks[0].parent = parent
